@@ -411,6 +411,19 @@ class FreeEnergy(InterpolatableFunction):
                         f"vev={ode.y}"
                     )
                     break
+                if (
+                    ode.status == "finished"
+                    and TList.size > 1
+                    and abs(ode.t - TList[-1]) < 1e-2 * dT
+                ):
+                    # The last step onto the end of the range is a tiny remainder (end an
+                    # integer number of steps away). Two nearly coincident abscissae would
+                    # make the spline derivatives amplify rounding noise, so the end point
+                    # replaces the previous one instead of being appended.
+                    TList[-1] = ode.t
+                    fieldList[-1] = ode.y
+                    potentialEffList[-1] = potentialEffT
+                    break
                 # append results to lists
                 TList = np.append(TList, [ode.t], axis=0)
                 fieldList = np.append(fieldList, [ode.y], axis=0)
